@@ -491,8 +491,13 @@ def do_decrypt(opts, files):
     return 0, b'', b''
 
 # ---------------------------------------------------------------- cli
+def _read(path):
+    with open(path, 'rb') as f:
+        return f.read()
+
+
 def load_pub(path, kind):
-    data = open(path, 'rb').read()
+    data = _read(path)
     if kind == 'cert-pem':
         return x509.load_pem_x509_certificate(data).public_key()
     if kind == 'cert-der':
@@ -518,6 +523,13 @@ def _main(argv):
         cmd = '--' + cmd
     if cmd == '--version':
         return 0, b'xmlsec1 1.2.99 (verif-emulator)\n', b''
+    if cmd == '--list-transforms':
+        names = ['base64', 'c14n', 'c14n-with-comments', 'exc-c14n', 'exc-c14n-with-comments', 'enveloped-signature',
+                 'aes128-cbc', 'aes192-cbc', 'aes256-cbc', 'tripledes-cbc', 'rsa-1_5', 'rsa-oaep-mgf1p',
+                 'hmac-sha1', 'hmac-sha224', 'hmac-sha256', 'hmac-sha384', 'hmac-sha512',
+                 'rsa-sha1', 'rsa-sha224', 'rsa-sha256', 'rsa-sha384', 'rsa-sha512',
+                 'sha1', 'sha224', 'sha256', 'sha384', 'sha512']
+        return 0, ('Registered transform klasses:\n' + ','.join('"%s"' % n for n in names) + '\n').encode(), b''
     opts = {'idattrs': []}
     files = []
     while args:
@@ -530,7 +542,7 @@ def _main(argv):
         elif a in ('--privkey-pem',):
             p = args.pop(0).split(',')[0]
             try:
-                opts['privkey'] = serialization.load_pem_private_key(open(p, 'rb').read(), None)
+                opts['privkey'] = serialization.load_pem_private_key(_read(p), None)
             except Exception as e:
                 raise XErr('cannot load private key %s' % p)
         elif a in ('--pubkey-cert-pem', '--pubkey-cert-der', '--pubkey-pem'):
